@@ -43,6 +43,10 @@ def replace_dict(
 
             if ast.hash() in replacements:
                 repl = replacements[ast.hash()]
+                # the nodes above are rebuilt with the width they had: a replacement of another width would leave
+                # them reporting a width their value does not have
+                if isinstance(repl, Base) and repl.length != ast.length:
+                    raise ClaripyReplacementError("replacements must have matching sizes")
 
             elif ast.variables >= variable_set:
                 if ast.is_leaf():
